@@ -179,11 +179,12 @@ def load_known(prop):
     return out
 
 
-def check_known_witnesses(ctx):
+def check_known_witnesses(ctx, prop=None, report=True):
     """Re-execute the listed witness of every known finding; report KNOWN-FINDING or a stale note.
-    Returns the set of keys whose witness still fails."""
+    Returns the set of keys whose witness still fails.  With another property's id and report=False the regions of
+    that property's findings are only taken as stated exclusions (no KNOWN-FINDING line for this property)."""
     live = set()
-    for ent in load_known(ctx.prop):
+    for ent in load_known(prop or ctx.prop):
         if ent['kind'] != 'finding':
             continue
         if ent['witness'] is None:
@@ -193,9 +194,11 @@ def check_known_witnesses(ctx):
         os.unlink(path)
         if code == 1:
             live.add(ent['key'])
-            ctx.known_hits.append((ent['key'], ent.get('desc', '')))
+            if report:
+                ctx.known_hits.append((ent['key'], ent.get('desc', '')))
         elif code == 0:
-            ctx.notes.append(f'stale known finding (witness no longer fails): {ent["key"]}')
+            if report:
+                ctx.notes.append(f'stale known finding (witness no longer fails): {ent["key"]}')
         else:
             raise HarnessError(f'known-finding witness {ent["key"]} could not be replayed: {out[-300:]}')
     return live
